@@ -121,37 +121,45 @@ inductive Violation
   | missing (path : String)
 deriving Repr, BEq
 
+/-- running state of the gate's scan over the breadth-first contexts -/
+structure Scan where
+  errs : List Violation := []
+  bad : List String := []
+  removed : List (List Nat) := []
+  ids : List (String × String) := []
+  seenRoot : Bool := false
+  seenDefs : Bool := false
+
+/-- one context of the scan -/
+def scanStep (allowText dropUnsupported : Bool) (st : Scan) (c : Ctx) : Scan :=
+  let p := pathString c.segs
+  if st.bad.any (fun bp => bp.isPrefixOf p) then st
+  else if !pathAllowed allowText c.segs then
+    if dropUnsupported then { st with removed := st.removed ++ [c.addr] }
+    else { st with errs := st.errs ++ [.badElement p], bad := st.bad ++ [p] }
+  else
+    let st := { st with seenRoot := st.seenRoot || p == "/svg[0]", seenDefs := st.seenDefs || p == "/svg[0]/defs[0]" }
+    match c.node.getAttr "id" with
+    | some i =>
+      let errs := match st.ids.lookup i with
+        | some first => st.errs ++ [.reusesId p i first]
+        | none => st.errs
+      { st with errs := errs, ids := (i, p) :: st.ids.filter (·.1 != i) }
+    | none => st
+
+def scanAll (allowText dropUnsupported : Bool) (ctxs : List Ctx) : Scan :=
+  ctxs.foldl (scanStep allowText dropUnsupported) {}
+
+def missing (st : Scan) : List Violation :=
+  (if st.seenRoot then [] else [Violation.missing "/svg[0]"]) ++
+  (if st.seenDefs then [] else [Violation.missing "/svg[0]/defs[0]"])
+
 /-- `checkpicosvg(allow_text, drop_unsupported)` on an in-sync tree: the violations (BadElement /
     id reuse in traversal order, then MissingElement) and the addresses removed by drop_unsupported -/
 def checkPico (allowText dropUnsupported : Bool) (root : Node) :
-    Except PyErr (List Violation × List (List Nat)) := do
-  let ctxs ← breadthFirst root
-  let mut errs : List Violation := []
-  let mut bad : List String := []
-  let mut removed : List (List Nat) := []
-  let mut ids : List (String × String) := []
-  let mut seenRoot := false
-  let mut seenDefs := false
-  for c in ctxs do
-    let p := pathString c.segs
-    if bad.any (fun bp => bp.isPrefixOf p) then continue
-    if !pathAllowed allowText c.segs then
-      if dropUnsupported then removed := removed ++ [c.addr]
-      else
-        errs := errs ++ [.badElement p]
-        bad := bad ++ [p]
-      continue
-    if p == "/svg[0]" then seenRoot := true
-    if p == "/svg[0]/defs[0]" then seenDefs := true
-    match c.node.getAttr "id" with
-    | some i =>
-      match ids.lookup i with
-      | some first => errs := errs ++ [.reusesId p i first]
-      | none => pure ()
-      ids := (i, p) :: ids.filter (·.1 != i)
-    | none => pure ()
-  let miss := (if seenRoot then [] else [Violation.missing "/svg[0]"]) ++
-              (if seenDefs then [] else [Violation.missing "/svg[0]/defs[0]"])
-  pure (errs ++ miss, removed)
+    Except PyErr (List Violation × List (List Nat)) :=
+  breadthFirst root >>= fun ctxs =>
+    let st := scanAll allowText dropUnsupported ctxs
+    .ok (st.errs ++ missing st, st.removed)
 
 end PicoSVG.Traverse
